@@ -14,4 +14,5 @@ for id in "$@"; do
   grep -E "^  rule|ANCHOR-LOST|CHECKER-ERROR" /tmp/try_$id.out | head -8
 done
 git -C /repo checkout -- . 
+git -C /repo clean -fdq -- lib
 git -C /repo status --short | head -3
